@@ -46,7 +46,7 @@ WEIGHT_SUM = "sum of solver weights: positive while at least one valid cell keep
 BRENT = {"brentq": "port of SciPy's brentq.c: float differences of bracket end points/values; listed, not decided (C07/C08 decline the Brent iteration)"}
 LISTED = {
     # (function, factor key) -> reason: numerical denominators that are listed in the evidence but not decided
-    ("*gcv", "w_temp.sum[]"): WEIGHT_SUM,
+    ("*gcv", "sum[w_temp]"): WEIGHT_SUM,
     ("*gcv", "denominator"): "GCV denominator sum(w)*(1 - trH/sum(w))**2: zero only if trH equals the weight sum; numerical, listed and not decided",
 }
 GCV_FUNCS = {"ws2dwcv", "ws2dwcvp", "_ws2dwcvp"}
